@@ -14,6 +14,7 @@ func main() {
 	args := lib.ParseArgs()
 	w := lib.NewWriter(args, "C01", "c01", "From KB Require Import Model.C01Cases.", "c01_case", "c01_check", "c01_oracle", 150)
 	lib.KBCompactRaces(w, args, []string{lib.EngMem, lib.EngBadger, lib.EngTiKV})
+	lib.KBDoubleSuccessStress(w, args, []string{lib.EngBadger, lib.EngTiKV})
 	lib.KBDrive(w, args, lib.KBProfile{Prop: "C01", Malformed: 8, ErrPct: 4, AbortPct: 3,
 		Quick: 300, QuickOther: 40, Thorough: 5000, Search: 1500, Exhaustive: true,
 		WrapCoq: func(coq string) string { return "(C1Sched " + coq + ")" }})
